@@ -8,3 +8,6 @@ func verifPoint(name string, id int64) {}
 
 // verifBind tells the verification harness which client a wake signal belongs to.
 func verifBind(ws *wakeSignal, id int64) {}
+
+// names of the "event received" schedule points of a connection's event loop, by state
+var verifCxnTake = [...]string{"cxn.take.none", "cxn.take.init", "cxn.take.wait", "cxn.take.disp", "cxn.take.term"}
